@@ -283,20 +283,15 @@ def r24(ctx, fx):
         return
     k = SEG + "::target_offset"
     ctx.inst(rid, k)
-    sub = [n for n in lib.hwalk(to.hir["body"]) if n.get("k") == "binary" and n["op"] == "Sub"]
-
-    def field_chain(e):
-        names = []
-        for x in lib.hwalk(e):
-            if x.get("k") == "field":
-                names.append(x["name"])
-        return names
-    if len(sub) != 1 or "target_address" not in field_chain(sub[0]["l"]) or "initial_pc" not in field_chain(sub[0]["r"]):
+    d = lib.hdesc(to.hir["body"].get("expr") or to.hir["body"])
+    subs = [t for t in lib.subterms(d) if isinstance(t, tuple) and len(t) == 3 and t[0] == "Sub"]
+    if len(subs) != 1 or "'target_address'" not in repr(subs[0][1]) or "'initial_pc'" not in repr(subs[0][2]):
         ctx.finding(rid, k, "target_offset must be target_address − initial_pc", to.where)
     k = SEG + "::target_pc"
     ctx.inst(rid, k)
-    add = [n for n in lib.hwalk(tp.hir["body"]) if n.get("k") == "binary" and n["op"] == "Add"]
-    ok = len(add) == 1 and "pc" in field_chain(add[0]) and any((p or "").endswith("target_offset") for _, p in lib.hir_calls(add[0]))
+    d = lib.hdesc(tp.hir["body"].get("expr") or tp.hir["body"])
+    adds = [t for t in lib.subterms(d) if isinstance(t, tuple) and len(t) == 3 and t[0] == "Add"]
+    ok = len(adds) == 1 and "('f', 'pc'," in repr(adds[0]) and "target_offset" in repr(adds[0])
     if not ok:
         ctx.finding(rid, k, "target_pc must be pc + target_offset()", tp.where)
     # try_current_target_pc → target_pc
